@@ -15,11 +15,12 @@ class DefNet:
     def __init__(self, name):
         self.name = name
         self.pins = []
+        self.routed = []
 
     @property
     def wires(self):
         ww = defaultdict(list)
-        [ww[dw.layer].append((int(dw.width), dw.wire_points)) for dw in self.routed if len(dw.wire_points) > 0]
+        [ww[dw.layer].append((int(dw.width) if dw.width is not None else None, dw.wire_points)) for dw in self.routed if len(dw.wire_points) > 0]
         return ww
 
     @property
@@ -37,9 +38,11 @@ class DefWire:
 
     @property
     def wire_points(self):
-        start = [self.points[0]]
-        rest = [p for p in self.points[1:] if not isinstance(p[0], str)]  # skip over vias
-        return start + rest if len(rest) > 0 else []
+        pts = [self.points[0]]
+        for p in self.points[1:]:
+            if isinstance(p[0], str): continue  # skip over vias
+            pts.append((pts[-1][0] if p[0] is None else p[0], pts[-1][1] if p[1] is None else p[1]) + p[2:])  # if None, keep previous value
+        return pts if len(pts) > 1 else []
 
     @property
     def vias(self):
